@@ -1813,6 +1813,33 @@ theorem setAlias_bad (s : St) (ctx : Nat) (k : Name) (v : Path) : (setAlias s ct
 
 def Sticky (pm : St → Nat → St) : Prop := ∀ s t, (pm s t).bad = false → s.bad = false
 
+theorem pmMany_bad {pm : St → Nat → St} (hpm : Sticky pm) :
+    ∀ (l : List Nat) (s : St), (pmMany pm l s).bad = false → s.bad = false
+  | [], _, h => h
+  | m :: r, s, h => by
+    simp only [pmMany, List.foldl_cons] at h
+    have := pmMany_bad hpm r _ h
+    by_cases hu : getPs s m = .unprocessed
+    · simp only [hu, if_true] at this; exact hpm _ _ this
+    · simp only [hu, if_false] at this; exact this
+
+theorem gpmOne_bad {pm : St → Nat → St} (hpm : Sticky pm) {s : St} {t : Nat}
+    (h : (gpmOne pm s t).bad = false) : s.bad = false := by
+  unfold gpmOne at h
+  simp only at h
+  obtain ⟨_, he⟩ := markBad_bad h
+  rw [he] at h
+  split at h
+  · exact hpm _ _ h
+  · exact h
+
+theorem gpmAbove_bad {pm : St → Nat → St} (hpm : Sticky pm) {s : St} {t : Nat}
+    (h : (gpmAbove pm s t).bad = false) : s.bad = false := by
+  unfold gpmAbove at h
+  split at h
+  · exact pmMany_bad hpm _ _ h
+  · exact h
+
 theorem gpm_bad {pm : St → Nat → St} (hpm : Sticky pm) {s : St} {T : Path}
     (h : (getProcessedModule pm s T).1.bad = false) : s.bad = false := by
   unfold getProcessedModule at h
@@ -1826,14 +1853,17 @@ theorem gpm_bad {pm : St → Nat → St} (hpm : Sticky pm) {s : St} {T : Path}
       rw [he] at h; exact h
     | some t =>
       simp only at h
-      obtain ⟨_, he⟩ := markBad_bad h
-      rw [he] at h
-      split at h
-      · have := hpm _ _ h
-        obtain ⟨_, he2⟩ := markBad_bad this
-        rw [he2] at this; exact this
-      · obtain ⟨_, he2⟩ := markBad_bad h
-        rw [he2] at h; exact h
+      have h0 := gpmAbove_bad hpm (gpmOne_bad hpm h)
+      obtain ⟨_, he2⟩ := markBad_bad h0
+      rw [he2] at h0; exact h0
+
+theorem importProcess_bad {pm : St → Nat → St} (hpm : Sticky pm) {T : Path} {s : St}
+    (h : (importProcess pm T s).bad = false) : s.bad = false := by
+  unfold importProcess at h
+  generalize prefixesOf T = l at h
+  induction l generalizing s with
+  | nil => exact h
+  | cons p r ih => exact gpm_bad hpm (ih h)
 
 theorem doMove_bad {s : St} {ctx ob : Nat} {a : Name} (h : (doMove s ctx ob a).1.bad = false) : s.bad = false := by
   unfold doMove at h
@@ -1847,18 +1877,7 @@ theorem pbm_bad {pm : St → Nat → St} (hpm : Sticky pm) {s : St} {ob : Nat}
   split at h
   · split at h
     · simp only at h
-      have hf : ∀ (l : List Nat) (st : St),
-          (l.foldl (fun st m => if getPs st m == .unprocessed then pm st m else st) st).bad = false → st.bad = false := by
-        intro l
-        induction l with
-        | nil => intro st h; exact h
-        | cons m r ih =>
-          intro st h
-          have := ih _ h
-          by_cases hu : (getPs st m == .unprocessed) = true
-          · simp only [hu, if_true] at this; exact hpm _ _ this
-          · simp only [hu] at this; exact this
-      exact gpm_bad hpm (hf _ _ h)
+      exact gpm_bad hpm (pmMany_bad hpm _ _ h)
     · simp at h
   · exact h
 
@@ -1966,7 +1985,7 @@ theorem enterClass_bad {ctx : Nat} {n : Name} {bs : List Path} {s : St} (h : (en
 mutual
 theorem visitStmt_bad {pm : St → Nat → St} (hpm : Sticky pm) {mod : Nat} :
     ∀ (st : Stmt) (ctx : Nat) (s : St), (visitStmt pm mod ctx st s).bad = false → s.bad = false
-  | .importMod target asname, ctx, s, h => by simp only [visitStmt] at h; exact visitImport_bad h
+  | .importMod target asname, ctx, s, h => by simp only [visitStmt] at h; exact importProcess_bad hpm (visitImport_bad h)
   | .importFrom level modname name asname, ctx, s, h => by
     simp only [visitStmt] at h; exact visitImportFrom_bad hpm h
   | .importStar level modname, ctx, s, h => by simp only [visitStmt] at h; exact visitImportStar_bad hpm h
@@ -2095,6 +2114,59 @@ theorem lookupModule_spec {proj : Project} {s : St} (hI : PdInv proj s) {T : Pat
     · injection h with h1 _; injection h1 with h1; exact h1.symm
     · cases h
 
+theorem pmMany_ok {proj : Project} {pm : St → Nat → St} (hpm : PmOk proj pm) :
+    ∀ (l : List Nat) (s : St), (∀ m ∈ l, m < proj.length) → PdInv proj s → (pmMany pm l s).bad = false →
+      PdInv proj (pmMany pm l s) ∧ Ext s (pmMany pm l s)
+  | [], s, _, hI, _ => ⟨hI, Ext.refl s⟩
+  | m :: r, s, hl, hI, hb => by
+    simp only [pmMany, List.foldl_cons] at hb ⊢
+    have hb1 := pmMany_bad hpm.1 r _ hb
+    by_cases hu : getPs s m = .unprocessed
+    · simp only [hu, if_true] at hb hb1 ⊢
+      obtain ⟨hI1, he1, _⟩ := hpm.2 s m hb1 hI (hl m List.mem_cons_self)
+      obtain ⟨hI2, he2⟩ := pmMany_ok hpm r _ (fun x hx => hl x (List.mem_cons_of_mem _ hx)) hI1 hb
+      exact ⟨hI2, he1.trans he2⟩
+    · simp only [hu, if_false] at hb ⊢
+      exact pmMany_ok hpm r _ (fun x hx => hl x (List.mem_cons_of_mem _ hx)) hI hb
+
+theorem modulesAbove_lt {proj : Project} {s : St} (hI : PdInv proj s) :
+    ∀ (f i : Nat), ∀ m ∈ modulesAbove s.reg f i, m < proj.length
+  | 0, _, m, h => by simp [modulesAbove] at h
+  | f+1, i, m, h => by
+    unfold modulesAbove at h
+    split at h
+    · split at h
+      · rename_i par _ hm
+        rcases List.mem_cons.1 h with h | h
+        · subst h; exact module_obj hI hm
+        · exact modulesAbove_lt hI f par m h
+      · cases h
+    · cases h
+
+theorem gpmAbove_ok {proj : Project} {pm : St → Nat → St} (hpm : PmOk proj pm) {s : St} {t : Nat}
+    (hI : PdInv proj s) (hb : (gpmAbove pm s t).bad = false) :
+    PdInv proj (gpmAbove pm s t) ∧ Ext s (gpmAbove pm s t) := by
+  unfold gpmAbove at hb ⊢
+  split
+  · rename_i hu
+    simp only [hu, if_true] at hb
+    unfold processAbove at hb ⊢
+    exact pmMany_ok hpm _ _ (fun m hm => modulesAbove_lt hI _ _ m (List.mem_reverse.1 hm)) hI hb
+  · exact ⟨hI, Ext.refl s⟩
+
+theorem gpmOne_ok {proj : Project} {pm : St → Nat → St} (hpm : PmOk proj pm) {s : St} {t : Nat}
+    (hI : PdInv proj s) (hlt : t < proj.length) (hb : (gpmOne pm s t).bad = false) :
+    PdInv proj (gpmOne pm s t) ∧ Ext s (gpmOne pm s t) := by
+  unfold gpmOne at hb ⊢
+  simp only at hb ⊢
+  obtain ⟨_, he⟩ := markBad_bad hb
+  rw [he] at hb ⊢
+  by_cases hu' : getPs s t = .unprocessed
+  · simp only [hu', if_true] at hb ⊢
+    exact ⟨(hpm.2 s t hb hI hlt).1, (hpm.2 s t hb hI hlt).2.1⟩
+  · simp only [hu', if_false] at hb ⊢
+    exact ⟨hI, Ext.refl s⟩
+
 theorem gpm_ok {proj : Project} {pm : St → Nat → St} (hpm : PmOk proj pm) {s : St} {T : Path}
     (hI : PdInv proj s) (hb : (getProcessedModule pm s T).1.bad = false) :
     PdInv proj (getProcessedModule pm s T).1 ∧ Ext s (getProcessedModule pm s T).1 ∧
@@ -2111,22 +2183,39 @@ theorem gpm_ok {proj : Project} {pm : St → Nat → St} (hpm : PmOk proj pm) {s
       exact ⟨hI, Ext.refl s, fun t ht => by cases ht⟩
     | some t =>
       simp only at hb ⊢
-      obtain ⟨_, he⟩ := markBad_bad hb
-      rw [he] at hb ⊢
       obtain ⟨hlt, hu⟩ := lookupModule_spec hI hl
       have hrest : ∀ t0, some t = some t0 → t0 < proj.length ∧ ∀ t', modIdx proj T = some t' → t0 = t' :=
         fun t0 ht0 => by injection ht0 with ht0; subst ht0; exact ⟨hlt, hu⟩
-      have hin : (markBad s crash).bad = false := by
-        split at hb
-        · exact hpm.1 _ _ hb
-        · exact hb
+      have hbA := gpmOne_bad hpm.1 hb
+      have hin := gpmAbove_bad hpm.1 hbA
       obtain ⟨_, hin'⟩ := markBad_bad hin
-      rw [hin'] at hb ⊢
-      by_cases hu' : getPs s t = .unprocessed
-      · simp only [hu', if_true] at hb ⊢
-        exact ⟨(hpm.2 s t hb hI hlt).1, (hpm.2 s t hb hI hlt).2.1, hrest⟩
-      · simp only [hu', if_false] at hb ⊢
-        exact ⟨hI, Ext.refl s, hrest⟩
+      rw [hin'] at hb hbA ⊢
+      obtain ⟨hIA, heA⟩ := gpmAbove_ok hpm hI hbA
+      obtain ⟨hI1, he1⟩ := gpmOne_ok hpm hIA hlt hb
+      exact ⟨hI1, heA.trans he1, hrest⟩
+
+theorem importProcess_ok {proj : Project} {pm : St → Nat → St} (hpm : PmOk proj pm) {T : Path} {s : St}
+    (hI : PdInv proj s) (hb : (importProcess pm T s).bad = false) :
+    PdInv proj (importProcess pm T s) ∧ Ext s (importProcess pm T s) := by
+  unfold importProcess at hb ⊢
+  generalize prefixesOf T = l at hb ⊢
+  induction l generalizing s with
+  | nil => exact ⟨hI, Ext.refl s⟩
+  | cons p r ih =>
+    simp only [List.foldl_cons] at hb ⊢
+    have hb1 : (getProcessedModule pm s p).1.bad = false := by
+      have := importProcess_bad (T := []) hpm.1 (s := (getProcessedModule pm s p).1)
+      clear this
+      have hf : ∀ (l : List Path) (st : St), (l.foldl (fun st p => (getProcessedModule pm st p).1) st).bad = false →
+          st.bad = false := by
+        intro l
+        induction l with
+        | nil => intro st h; exact h
+        | cons q r' ih' => intro st h; exact gpm_bad hpm.1 (ih' _ h)
+      exact hf r _ hb
+    obtain ⟨hI1, he1, _⟩ := gpm_ok hpm hI hb1
+    obtain ⟨hI2, he2⟩ := ih hI1 hb
+    exact ⟨hI2, he1.trans he2⟩
 
 /-! ## one statement -/
 
@@ -2658,8 +2747,11 @@ theorem visitStmt_ok {proj : Project} {rank : List Nat} (wf : WFacts proj rank) 
       st ∈ full → (visitStmt pm mod ctx st s).bad = false →
       PdInv proj (visitStmt pm mod ctx st s) ∧ Ext s (visitStmt pm mod ctx st s) ∧
       CompleteStmt (visitStmt pm mod ctx st s) ctx st
-  | .importMod t a, ctx, s, S, full, hI, hc, hst, _ => by
-    simp only [visitStmt]; exact visitImport_ok wf hI hc hst
+  | .importMod t a, ctx, s, S, full, hI, hc, hst, hb => by
+    simp only [visitStmt] at hb ⊢
+    obtain ⟨hI0, he0⟩ := importProcess_ok hpm hI (visitImport_bad hb)
+    obtain ⟨h1, h2, h3⟩ := visitImport_ok wf hI0 (hc.ext he0) hst
+    exact ⟨h1, he0.trans h2, h3⟩
   | .importFrom lvl M n a, ctx, s, S, full, hI, hc, hst, hb => by
     simp only [visitStmt] at hb ⊢; exact visitImportFrom_ok wf nr hpm hI hc hst hb
   | .importStar lvl M, ctx, s, S, full, hI, hc, hst, hb => by
